@@ -62,6 +62,13 @@ fn main() {
         println!("MACHINERY-ERROR property={} instrumented merlin is not bit-compatible with the registry crate: {}", args[1], e);
         std::process::exit(2);
     }
-    let code = props::run(&args[1], &tier, seed);
+    // a panic of the harness itself is a machinery error, never a verdict
+    let code = match std::panic::catch_unwind(|| props::run(&args[1], &tier, seed)) {
+        Ok(c) => c,
+        Err(_) => {
+            println!("MACHINERY-ERROR property={} the harness panicked (see stderr)", args[1]);
+            2
+        }
+    };
     std::process::exit(code);
 }
